@@ -163,7 +163,10 @@ class C11(Prop):
             if len(sx) != len(sy):
                 viol.append({"oracle": "C11/seam", "signature": "number-of-solver-calls-differs",
                              "detail": {"cvxpy": len(sx), "mosek": len(sy)}})
-            if plan["mode"] == "real" and okx and oky:
+            accurate = all(c_.get("status") == "optimal" for c_ in list(sx) + list(sy))
+            if plan["mode"] == "real" and okx and oky and not accurate:
+                pass    # a REAL solver that reports "inaccurate" promises nothing beyond its own status: no verdict on values
+            elif plan["mode"] == "real" and okx and oky:
                 va, vb = float.fromhex(x["value"]), float.fromhex(y["value"])
                 err = abs(va - vb) / (1.0 + abs(va))
                 worst = max(worst, err)
